@@ -8,9 +8,14 @@ import PopsModel.Props.C02
 namespace Pops
 
 /-- Any sequence of state-dependent actions conserves hosts: hosts after = hosts before - died -
-    removed by treatments; consistency is kept. -/
+    removed by treatments; consistency is kept. The domain hypothesis is taken ALONG THE RUN
+    (`GensDomainAlong`: each action's operations are in their domain at the landscape that action
+    finds). An earlier version asked for the domain at every consistent landscape; that is
+    unsatisfiable for SEI inputs (`uniform_domain_unsat_sei`: the latency step needs non-empty
+    cohort vectors, and the empty-cohort landscape is consistent), i.e. the theorem was vacuous
+    there. -/
 theorem C01_generators (gens : List OpGen) (l l' : Land) (hinv : l.inv) (hu : l.uniform)
-    (hd : ∀ gen ∈ gens, ∀ x : Land, x.inv → x.uniform → DomainAlong (gen x) x)
+    (hd : GensDomainAlong gens l)
     (h : runGens gens l = .ok l') :
     l'.hosts = l.hosts - (l'.died - l.died) - removedByGens gens l ∧
     0 ≤ removedByGens gens l ∧ l.died ≤ l'.died ∧ l'.hosts ≤ l.hosts ∧ l'.inv ∧ l'.uniform := by
@@ -26,28 +31,25 @@ theorem C01_generators (gens : List OpGen) (l l' : Land) (hinv : l.inv) (hu : l.
     | error e => rw [h1] at h; cases h
     | ok m =>
       rw [h1] at h
-      have hdg := hd gen (by simp) l hinv hu
+      have hdg := hd.1
       obtain ⟨a1, a2, a3, a4⟩ := C01_history (gen l) l m hinv hu hdg h1
       obtain ⟨b1, b2⟩ := C02_history (gen l) l m hinv hu hdg h1
-      obtain ⟨c1, c2, c3, c4, c5, c6⟩ := ih m b1 b2 (fun g hg => hd g (by simp [hg])) h
+      obtain ⟨c1, c2, c3, c4, c5, c6⟩ := ih m b1 b2 (hd.2 m h1) h
       simp only [removedByGens, h1]
       exact ⟨by omega, by omega, by omega, by omega, c5, c6⟩
 
 /-- C01 per model step: over one `run_step`, for every combination of enabled and scheduled
     actions (the plan of C09), every input raster, kernel result and random draw in the documented
-    domain, hosts after = hosts before - the step's reported deaths - hosts removed by treatments,
-    and no host is created. -/
+    domain along the run, hosts after = hosts before - the step's reported deaths - hosts removed
+    by treatments, and no host is created. (A concrete SEI instance of the hypotheses and of the
+    conclusion: Props/C05OffSeason.lean, `c05Off_domain`, `c05Off_run` and the example that follows them.) -/
 theorem C01_model_step (cfg : StepCfg) (inp : StepInputs) (step : Nat) (l l' : Land)
     (hinv : l.inv) (hu : l.uniform)
-    (hd : ∀ a : ActionKind, ∀ x : Land, x.inv → x.uniform → DomainAlong (actionGen inp step a x) x)
+    (hd : GensDomainAlong (stepGens cfg inp step) l)
     (h : runStepHosts cfg inp step l = .ok l') :
     l'.hosts = l.hosts - (l'.died - l.died) - removedByGens (stepGens cfg inp step) l ∧
     0 ≤ removedByGens (stepGens cfg inp step) l ∧ l'.hosts ≤ l.hosts ∧ l'.inv := by
-  have := C01_generators (stepGens cfg inp step) l l' hinv hu (by
-    intro gen hg x hx hxu
-    simp only [stepGens, List.mem_map] at hg
-    obtain ⟨a, _, rfl⟩ := hg
-    exact hd a.1 x hx hxu) h
+  have := C01_generators (stepGens cfg inp step) l l' hinv hu hd h
   exact ⟨this.1, this.2.1, this.2.2.2.1, this.2.2.2.2.1⟩
 
 /-- C09: the state after a model step is the state obtained by applying, one by one and in the
